@@ -378,6 +378,8 @@ class FnExec:
         for a, d in zip(args.kwonlyargs, args.kw_defaults):
             if d is not None:
                 defaults[a.arg] = d
+        if self.c.start_at_loop is not None:
+            params = list(self.c.types)      # the locals live at the start of the verified region
         for p in params:
             kind = self.c.types.get(p)
             if kind is None:
@@ -427,16 +429,41 @@ class FnExec:
             self.entry_pc = list(st.pc)
             # vacuity: requires satisfiable
             self.requires_sat = self.feasible(st)
-            for st1, sig in self.exec_block(self.node.body, st):
+            body = self.node.body
+            if self.c.start_at_loop is not None:
+                target = self.loops[self.c.start_at_loop]
+                idxs = [i for i, s_ in enumerate(body) if s_ is target]
+                if not idxs:
+                    raise Unsupported("start_at_loop: the loop is not a top-level statement of the function")
+                body = body[idxs[0]:]
+                self.eng.assumptions_used.add(
+                    f"REGION {self.qualname}: statements before line {target.lineno} are not verified; they are trusted to establish the stated precondition")
+            for st1, sig in self.exec_block(body, st):
                 self.paths += 1
                 self.at_exit(st1, sig)
         except Unsupported as e:
             self.unsupported.append(str(e))
         return self
 
+    def vacuity_probe(self, st, group):
+        """records one probe per completed path: `pc => False` must NOT be provable.  If every path of a
+        group (a loop body, the function exits) is provably infeasible the proof is vacuous (checker error)."""
+        full = f"{self.qualname}/vacuity[{group}]"
+        st = st.clone()
+        try:
+            for u in self.inst_uses([], st, None):
+                if u[0] == "__inst__":
+                    for f in instantiate_foralls(st.pc, u[1]):
+                        st.assume(f)
+        except Unsupported:
+            pass
+        ob = Obligation(full, st.pc, z3.BoolVal(False), "vacuity", self.qualname, None, dict(self.inputs))
+        self.obls.append(ob)
+
     def at_exit(self, st, sig):
         if sig is FALL:
             sig = ("ret", NONE)
+        self.vacuity_probe(st, "exit")
         if sig[0] in ("ret", "raise"):
             how = "return" if sig[0] == "ret" else f"raise:{sig[1].t}"
             for name, e in self.c.always:
@@ -452,8 +479,8 @@ class FnExec:
             # heap state (stream.data ...) and locals are the exit ones; old(...) gives the entry heap
             pst = st.clone()
             for p in self.c.types:
-                if p in self.entry.env:
-                    pst.env[p] = self.entry.env[p]
+                if p in self.entry.env and self.entry.env[p].kind not in ("vmdict", "mmdict", "gclocal", "arr", "ref"):
+                    pst.env[p] = self.entry.env[p]      # (mutable containers denote their exit state)
             for name, e in self.c.ensures:
                 g = self.truth(self.ev_spec(e, pst, result=res))
                 self.oblige(st, f"ensures[{name}]", g, "ensures", use=self.inst_uses(self.c.use, st, res))
@@ -651,6 +678,15 @@ class FnExec:
                 if isinstance(tgt, ast.Name) and tgt.id in self.c.ghost_at_assign:
                     for g, e in self.c.ghost_at_assign[tgt.id].items():
                         st2.ghost[g] = self.ev_spec(e, st2)
+                if isinstance(tgt, ast.Name) and tgt.id in self.c.assert_after_assign:
+                    uses = self.inst_uses(self.c.use, st2, None)
+                    for e in self.c.assert_after_assign[tgt.id]:
+                        try:
+                            g_ = self.truth(self.ev_spec(e, st2))
+                        except (Unsupported, KeyError):
+                            continue
+                        self.oblige(st2, f"assert-after[{tgt.id}]@{node.lineno}", g_, "hint", node.lineno, use=uses)
+                        st2.assume(g_)
             yield st2, FALL
 
     def s_AnnAssign(self, node, st):
@@ -855,12 +891,20 @@ class FnExec:
             raise Unsupported(f"loop {idx} (line {node.lineno}) of {self.qualname} has no invariant")
         return idx, spec
 
+    MUTATING_METHODS = {"append", "extend", "setdefault", "update", "add", "pop", "clear", "insert", "remove"}
+
     def assigned_names(self, body):
         names = set()
         for n in body:
             for c in ast.walk(n):
                 if isinstance(c, ast.Name) and isinstance(c.ctx, ast.Store):
                     names.add(c.id)
+                # in-place mutation of a local container: x[k] = v, x.append(v), ...
+                if isinstance(c, ast.Subscript) and isinstance(c.ctx, ast.Store) and isinstance(c.value, ast.Name):
+                    names.add(c.value.id)
+                if (isinstance(c, ast.Call) and isinstance(c.func, ast.Attribute) and c.func.attr in self.MUTATING_METHODS
+                        and isinstance(c.func.value, ast.Name)):
+                    names.add(c.func.value.id)
         return names
 
     def touched_refs(self, body, st):
@@ -871,12 +915,20 @@ class FnExec:
             for c in ast.walk(n):
                 if isinstance(c, ast.Name) and c.id in st.env and st.env[c.id].kind == "ref":
                     refs.add(st.env[c.id].t)
+                    extra = self.eng.spec._plug("modified_keys", self, st.env[c.id])
+                    if extra:
+                        refs |= set(extra)
+        # global model state (value heap, ghost counters ...) may be changed by any call in the body: it is
+        # part of the loop-modified state unless an invariant says otherwise
+        for (key, attr) in st.heap:
+            if key.startswith("$"):
+                refs.add(key)
         return refs
 
     def havoc(self, st, names, refs):
         for n in names:
-            if n in st.env and st.env[n].kind == "arr":
-                st.env[n] = SV("arr", fresh(n, st.env[n].t.sort()))
+            if n in st.env and st.env[n].kind in ("arr", "vmdict", "mmdict", "gclocal", "objseq"):
+                st.env[n] = SV(st.env[n].kind, fresh(n, st.env[n].t.sort()))
             elif n in st.env and st.env[n].kind in ("int", "bool", "bytes", "str", "obj"):
                 v = fresh_sv(n, st.env[n].kind)
                 if v.kind == "bytes":
@@ -1060,6 +1112,7 @@ class FnExec:
                         for g, e in spec.ghost_update.items():
                             st5.ghost[g] = self.ev_spec(e, st5)
                         self.paths += 1
+                        self.vacuity_probe(st5, f"{lname}.body")
                         if it is not None and length is not None:
                             length2, _ = self.iter_model(it, st5)
                             self.oblige(st5, f"{lname}.index-bound", st5.env[kname].t <= length2, "loop-preserve", node.lineno)
@@ -1087,6 +1140,8 @@ class FnExec:
                 continue
             se = st3.clone()
             se.assume(z3.Not(c))
+            if it is not None and length is not None:
+                se.assume(se.env[kname].t == length)      # implied by the index bound and the negated guard
             if self.feasible(se):
                 yield from self.exec_block(node.orelse, se)
 
@@ -1346,7 +1401,7 @@ class FnExec:
         for c in ast.walk(node):
             if isinstance(c, ast.Call):
                 f = c.func
-                if isinstance(f, ast.Name) and f.id in ("len", "isinstance", "bool", "int", "old", "forall", "implies", "same"):
+                if isinstance(f, ast.Name) and f.id in ("len", "isinstance", "bool", "int", "old", "forall", "forall_int", "implies", "same"):
                     continue
                 if self.is_spec:
                     continue
@@ -1771,6 +1826,16 @@ class FnExec:
                 a = self.truth(self.ev_spec(node.args[0], st, self._result))
                 b = self.truth(self.ev_spec(node.args[1], st, self._result))
                 yield st, sv_bool(z3.Implies(a, b))
+                return
+            if node.func.id == "forall_int":
+                # forall_int(lambda v: body): unbounded quantification over the integers
+                lam = node.args[0]
+                i = fresh(lam.args.args[0].arg, IntS)
+                st2 = st.clone()
+                st2.env[lam.args.args[0].arg] = sv_int(i)
+                st2.ghost[lam.args.args[0].arg] = sv_int(i)
+                body = self.truth(self.ev_spec(lam.body, st2, self._result))
+                yield st, sv_bool(z3.ForAll([i], body))
                 return
             if node.func.id == "forall":
                 # forall(lo, hi, lambda i: body)
